@@ -52,10 +52,26 @@ def _any():
     return z3.AllChar(z3.ReSort(z3.StringSort()))
 
 
+def _cat(av):
+    W = z3.Union(z3.Range('a', 'z'), z3.Range('A', 'Z'), z3.Range('0', '9'), z3.Re('_'))
+    D = z3.Range('0', '9')
+    S = z3.Union(z3.Re(' '), z3.Re('\t'), z3.Re('\n'), z3.Re('\r'), z3.Re('\x0b'), z3.Re('\x0c'))
+    table = {_C.CATEGORY_WORD: W, _C.CATEGORY_DIGIT: D, _C.CATEGORY_SPACE: S}
+    neg = {_C.CATEGORY_NOT_WORD: W, _C.CATEGORY_NOT_DIGIT: D, _C.CATEGORY_NOT_SPACE: S}
+    if av in table:
+        return table[av]
+    if av in neg:
+        return z3.Intersect(_any(), z3.Complement(neg[av]))
+    raise core.EngineGap(f"header regex category {av}")
+
+
 def _cls(items):
     neg = False
     alts = []
     for op, av in items:
+        if op == _C.CATEGORY:
+            alts.append(_cat(av))
+            continue
         if op == _C.NEGATE:
             neg = True
         elif op == _C.LITERAL:
@@ -79,6 +95,8 @@ def to_z3(nodes, dotall):
             parts.append(_any() if dotall else z3.Intersect(_any(), z3.Complement(z3.Re("\n"))))
         elif op == _C.IN:
             parts.append(_cls(av))
+        elif op == _C.CATEGORY:
+            parts.append(_cat(av))
         elif op == _C.NOT_LITERAL:
             parts.append(z3.Intersect(_any(), z3.Complement(z3.Re(chr(av)))))
         elif op == _C.SUBPATTERN:
